@@ -275,7 +275,7 @@ impl Property for C03 {
         ]
     }
     fn cases(&self, tier: Tier) -> u64 {
-        tier.pick(100_000, 3_000_000)
+        tier.pick(400_000, 4_000_000)
     }
     fn strategy(&self, tier: Tier) -> BoxedStrategy<Case> {
         let cfg = HistCfg {
